@@ -854,6 +854,32 @@ func (n *normaliser) siteRaw(h *nHelper, call *ast.CallExpr, cf string, parent m
 						}
 						return strings.Join(lhs, ", ") + " " + assign.Tok.String() + " " + strings.Join(vals, ", ") + "\n" + ifText, true
 					}
+					// "if h() {A} else {B}" (or "if !h()") with this return's value a literal: only the branch taken is kept
+					if ifs, isIfHost := host.(*ast.IfStmt); isIfHost && ifs.Init == nil && (vals[0] == "true" || vals[0] == "false") {
+						cond, neg := ast.Expr(ifs.Cond), false
+						for {
+							if pe, isP := cond.(*ast.ParenExpr); isP {
+								cond = pe.X
+								continue
+							}
+							if u, isU := cond.(*ast.UnaryExpr); isU && u.Op == token.NOT {
+								cond, neg = u.X, !neg
+								continue
+							}
+							break
+						}
+						if cond == ast.Expr(call) {
+							taken := (vals[0] == "true") != neg
+							switch {
+							case taken:
+								return n.render(cf, n.off(ifs.Body.Pos()), n.off(ifs.Body.End()))
+							case ifs.Else != nil:
+								return n.render(cf, n.off(ifs.Else.Pos()), n.off(ifs.Else.End()))
+							default:
+								return "", true
+							}
+						}
+					}
 					a, ok1 := n.render(cf, n.off(host.Pos()), n.off(call.Pos()))
 					b, ok2 := n.render(cf, n.off(call.End()), n.off(host.End()))
 					if !ok1 || !ok2 {
